@@ -19,14 +19,25 @@ theorem readLE_encodeLE (w : Nat) (hw : 0 < w) (xs : List Nat) (h : ∀ x ∈ xs
     (by rw [encodeLE_length]; have := Nat.le_mul_of_pos_right xs.length hw; omega)
   simpa [readLE] using this
 
+-- non-vacuity: three 16-bit patterns
+example : readLE 2 (encodeLE 2 [513, 65535, 7]) = [513, 65535, 7] :=
+  readLE_encodeLE 2 (by decide) [513, 65535, 7] (by decide)
+
 /-- a payload that is not a whole number of elements decodes to nothing (and is then refused by the
 count check unless the declared shape is empty) -/
 theorem readLE_partial (w : Nat) (hw : 0 < w) (data : List Nat) (h : data.length % w ≠ 0) :
     readLE w data = [] := readChunks_partial w hw _ data [] (Nat.le_refl _) h
 
+-- non-vacuity: six bytes read as 4-byte elements
+example : readLE 4 [1, 2, 3, 4, 5, 6] = [] := readLE_partial 4 (by decide) [1, 2, 3, 4, 5, 6] (by decide)
+
 theorem readLE_length (w : Nat) (hw : 0 < w) (data : List Nat) (h : data.length % w = 0) :
     (readLE w data).length = data.length / w := by
   simpa [readLE] using readChunks_length w hw _ data [] (Nat.le_refl _) h
+
+-- non-vacuity: eight bytes read as 4-byte elements
+example : (readLE 4 [1, 2, 3, 4, 5, 6, 7, 8]).length = [1, 2, 3, 4, 5, 6, 7, 8].length / 4 :=
+  readLE_length 4 (by decide) [1, 2, 3, 4, 5, 6, 7, 8] (by decide)
 
 /-- the decoder never panics -/
 theorem decode_no_panic (tp : TensorProtoM) : decode tp ≠ .error .panic := by
@@ -47,11 +58,23 @@ theorem decode_sound (tp : TensorProtoM) (d : Decoded) (h : decode tp = .ok d) :
   obtain ⟨h1, rfl, h3⟩ := body_sound tp dt0 d hb
   exact ⟨h1, rfl, h3, fun dt hc => by rw [hdt dt hc]; exact ⟨rfl, rfl⟩⟩
 
+-- non-vacuity: a 2×3 FLOAT tensor given in `float_data` (1.0, +0, a NaN, −Inf, a denormal, −0 as bit patterns)
+private def nv_tp : TensorProtoM := { dataType := 1, dims := [2, 3], floatData := [1065353216, 0, 2143289344, 4286578688, 1, 2147483648] }
+example : (∀ x ∈ nv_tp.dims, 0 ≤ x) ∧ (⟨.f32, [2, 3], nv_tp.floatData⟩ : Decoded).shape = nv_tp.dims.map Int.toNat ∧
+    (⟨.f32, [2, 3], nv_tp.floatData⟩ : Decoded).bits.length = prod (⟨.f32, [2, 3], nv_tp.floatData⟩ : Decoded).shape ∧
+    (∀ dt, dtypeOfCode nv_tp.dataType = some dt → (⟨.f32, [2, 3], nv_tp.floatData⟩ : Decoded).dt = dt ∧
+      (⟨.f32, [2, 3], nv_tp.floatData⟩ : Decoded).bits = valuesFor nv_tp dt) :=
+  decode_sound nv_tp ⟨.f32, [2, 3], nv_tp.floatData⟩ (by decide)
+
 /-- a payload whose element count does not match the declared shape is an error -/
 theorem decode_count_mismatch (tp : TensorProtoM) (dt : DType) (hc : dtypeOfCode tp.dataType = some dt)
     (h : (valuesFor tp dt).length ≠ prod (tp.dims.map Int.toNat)) : ∃ e, decode tp = .error e ∧ e ≠ .panic := by
   rw [decode_of_code tp dt hc, body_error_of_count tp dt h]
   exact ⟨_, rfl, by decide⟩
+
+-- non-vacuity: six values for a declared 2×2 shape
+example : ∃ e, decode { nv_tp with dims := [2, 2] } = .error e ∧ e ≠ .panic :=
+  decode_count_mismatch { nv_tp with dims := [2, 2] } .f32 rfl (by decide)
 
 theorem decode_negative_dim (tp : TensorProtoM) (x : Int) (hx : x ∈ tp.dims) (hneg : x < 0) :
     ∃ e, decode tp = .error e ∧ e ≠ .panic := by
@@ -62,6 +85,10 @@ theorem decode_negative_dim (tp : TensorProtoM) (x : Int) (hx : x ∈ tp.dims) (
     cases fallbackDType tp with
     | none => exact ⟨_, rfl, by decide⟩
     | some dt => exact ⟨_, body_error_of_neg tp dt x hx hneg, by decide⟩
+
+-- non-vacuity: dims [-2, -3]
+example : ∃ e, decode { nv_tp with dims := [-2, -3] } = .error e ∧ e ≠ .panic :=
+  decode_negative_dim { nv_tp with dims := [-2, -3] } (-3) (by decide) (by decide)
 
 /-- **Raw encoding, exact**: for every supported non-bool element type, any non-negative dims and any
 element bit patterns of the right width, the little-endian raw payload decodes to exactly them. -/
@@ -74,6 +101,12 @@ theorem decode_raw_exact (tp : TensorProtoM) (code : Int) (dt : DType) (hs : (co
   have hv : valuesFor tp dt = xs := by
     rw [valuesFor_raw tp code dt hs hb hn, hraw, readLE_encodeLE (width dt) hw xs hx]
   rw [decode_of_code tp dt (hc ▸ code_of_supported code dt hs), body_ok tp dt hd (by rw [hv, hlen]), hv]
+
+-- non-vacuity: a 2×3 INT16 tensor given as 12 raw bytes
+private def nv_raw : TensorProtoM := { dataType := 5, dims := [2, 3], rawData := encodeLE 2 [1, 65535, 32768, 513, 0, 7] }
+example : decode nv_raw = .ok ⟨.i16, nv_raw.dims.map Int.toNat, [1, 65535, 32768, 513, 0, 7]⟩ :=
+  decode_raw_exact nv_raw 5 .i16 (by simp [supported]) (by decide) rfl ⟨rfl, rfl, rfl, rfl, rfl⟩ (by decide)
+    [1, 65535, 32768, 513, 0, 7] (by decide) (by decide) rfl
 
 /-- the clause "**raw encoding, wrong length** (short by a byte or an element, long, empty): refused", as
 first stated -/
@@ -102,10 +135,21 @@ theorem decode_raw_length_mismatch_partial (tp : TensorProtoM) (code : Int) (dt 
   decode_count_mismatch tp dt (hc ▸ code_of_supported code dt hs)
     (valuesFor_length_ne tp code dt hs hn _ hlen hpartial)
 
+-- non-vacuity: 12 raw bytes for a declared 2×2 INT16 shape (whole elements, too many) …
+example : ∃ e, decode { nv_raw with dims := [2, 2] } = .error e ∧ e ≠ .panic :=
+  decode_raw_length_mismatch_partial { nv_raw with dims := [2, 2] } 5 .i16 (by simp [supported]) rfl ⟨rfl, rfl, rfl, rfl, rfl⟩ (by decide) (by decide)
+-- … and 3 raw bytes (a trailing partial element) for the non-empty 2×3 shape
+example : ∃ e, decode { nv_raw with rawData := [1, 2, 3] } = .error e ∧ e ≠ .panic :=
+  decode_raw_length_mismatch_partial { nv_raw with rawData := [1, 2, 3] } 5 .i16 (by simp [supported]) rfl ⟨rfl, rfl, rfl, rfl, rfl⟩ (by decide) (by decide)
+
 /-- an unsupported code with only raw data is refused with the invalid-type error -/
 theorem decode_unsupported_raw_only (tp : TensorProtoM) (hc : dtypeOfCode tp.dataType = none) (hn : NoTyped tp) :
     decode tp = .error .invalidType := by
   rw [decode_of_none tp hc, fallback_none_of_noTyped tp hn]
+
+-- non-vacuity: FLOAT16 (code 10) with raw data only
+example : decode { nv_raw with dataType := 10 } = .error .invalidType :=
+  decode_unsupported_raw_only { nv_raw with dataType := 10 } rfl ⟨rfl, rfl, rfl, rfl, rfl⟩
 
 /-- the full-strength clause "an element type the library cannot represent is reported as an error" -/
 def unsupported_refused_statement : Prop :=
